@@ -50,3 +50,37 @@ Print Assumptions C15_truncate_drops.
 Print Assumptions C15_drain_filter_conserves.
 Print Assumptions C15_remove_moves_out.
 Print Assumptions C15_drop_vec.
+
+From BV Require Import VecFacts2.
+(* drain: every element of the range goes to exactly one place — handed to the caller from the
+   front, handed from the back, or dropped by Drain's destructor — and the rest stays *)
+Theorem C15_drain_conserves : forall e v c s e0 front back d,
+  repr e v c -> drain v s e0 front back = Ret d ->
+  exists a b, repr e (d_vec d) (firstn (nn a) c ++ skipn (nn b) c) /\
+    d_taken_front d ++ d_dropped d ++ rev (d_taken_back d) = firstn (nn b - nn a) (skipn (nn a) c).
+Proof.
+  intros e v c s e0 front back d R H. destruct (drain_spec e v c s e0 front back d R H) as (a & b & _ & A & B).
+  exists a, b. split; assumption.
+Qed.
+
+(* growing resize clones n-1 times and moves the value in; nothing is dropped *)
+Theorem C15_resize_grow_drops_nothing : forall e v c new_len x next_id boom v',
+  repr e v c -> v_len v < new_len -> fst (resize e v new_len x next_id boom) = Ret v' ->
+  f_drops (snd (resize e v new_len x next_id boom)) = [] /\
+  f_clones (snd (resize e v new_len x next_id boom)) = new_len - v_len v - 1.
+Proof.
+  intros e v c new_len x next_id boom v' R L H.
+  destruct (resize_grow_spec e v c new_len x next_id boom v' R L H) as (_ & _ & _ & _ & A & B). split; assumption.
+Qed.
+
+(* split_off moves the tail: both vectors together hold exactly the old elements *)
+Theorem C15_split_off_moves : forall e v c at_ v1 v2,
+  ecfg_ok e -> repr e v c -> split_off e v at_ = Ret (v1, v2) -> contents v1 ++ contents v2 = c.
+Proof.
+  intros e v c at_ v1 v2 E R H. destruct (split_off_spec e v c at_ v1 v2 E R H) as (R1 & R2 & _).
+  rewrite (repr_contents e v1 _ R1), (repr_contents e v2 _ R2). apply firstn_skipn.
+Qed.
+
+Print Assumptions C15_drain_conserves.
+Print Assumptions C15_resize_grow_drops_nothing.
+Print Assumptions C15_split_off_moves.
